@@ -4,6 +4,7 @@ import Aergo.Model.Merkle
 import Aergo.Model.Receipt
 import Aergo.Model.ChainId
 import Aergo.Model.Hardfork
+import Aergo.Model.Startup
 
 /-! Model driver for C19: `model-c19 < ops > out`. One answer line per operation line. -/
 open Aergo Aergo.DriverLib Aergo.Enc
@@ -234,6 +235,54 @@ def hardforkOp (ws : List String) : String :=
     | _, _ => "bad-op"
   | _ => "bad-op"
 
+def compatStr : Hardfork.Compat → String
+  | .ok => "ok"
+  | .invalid => "invalid"
+  | .fork k => s!"fork:V{k}"
+  | .older => "older"
+
+/-- node-level operations (harness c19chain) -/
+def startupOp (ws : List String) : String :=
+  match ws with
+  | "rfmt" :: _site :: no :: n :: rest =>
+    match no.toNat?, n.toNat?, parseNats rest with
+    | some no, some n, some c => if c.length = n then toString (Startup.receiptFormat c no) else "bad-op"
+    | _, _, _ => "bad-op"
+  | ["blkid", c, d] =>
+    match unhex c, unhex d with
+    | some c, some d => hex (Startup.blockHash c d)
+    | _, _ => "bad-op"
+  | ["txval", c, d] =>
+    match unhex c, unhex d with
+    | some c, some d => if Startup.txHashOk c d then "ok" else "badhash"
+    | _, _ => "bad-op"
+  | "chkhf" :: best :: n :: rest =>
+    match best.toNat?, n.toNat? with
+    | some best, some n =>
+      match parseNats (rest.take n) with
+      | some c =>
+        if c.length = n then
+          let stored : Option Startup.Stored :=
+            match rest.drop n with
+            | ["absent"] => some .absent
+            | ["bad"] => some .unparsable
+            | other :: m :: kvs =>
+              match other.toNat?, m.toNat?, parseNats kvs with
+              | some other, some m, some kvs => if kvs.length = 2 * m then some (.record { entries := pairs kvs, badKeys := other }) else none
+              | _, _, _ => none
+            | _ => none
+          match stored with
+          | some s =>
+            match Startup.checkHardfork c s best with
+            | .started => "ok written"
+            | .refused e => compatStr e ++ " kept"
+            | .unreadable => "unreadable kept"
+          | none => "bad-op"
+        else "bad-op"
+      | none => "bad-op"
+    | _, _ => "bad-op"
+  | _ => "bad-op"
+
 def step (line : String) : String :=
   match words line with
   | "enc" :: sp :: assigns =>
@@ -260,6 +309,10 @@ def step (line : String) : String :=
   | "ver" :: ws => hardforkOp ("ver" :: ws)
   | "compat" :: ws => hardforkOp ("compat" :: ws)
   | "fix" :: ws => hardforkOp ("fix" :: ws)
+  | "rfmt" :: ws => startupOp ("rfmt" :: ws)
+  | "blkid" :: ws => startupOp ("blkid" :: ws)
+  | "txval" :: ws => startupOp ("txval" :: ws)
+  | "chkhf" :: ws => startupOp ("chkhf" :: ws)
   | _ => "bad-op"
 
 end C19Drv
